@@ -9,7 +9,7 @@ EXPLANATION = (
     "(HASH) every place where a std HashMap/HashSet is iterated (iter/keys/values/into_iter/drain or a for loop) in the "
     "five workspace crates is followed to its terminal consumer and must end in an order-insensitive sink "
     "(collect into a map/set with infallible pure closures, min/max/sum/count/all/any over pure closures); "
-    "(HASH-fmt) no hash collection is rendered with {:?}/{} ; (AMBIENT) no call into std::time, std::env, std::thread, "
+    "(HASH-fmt) no hash collection is rendered with {:?}/{} ; (AMBIENT) no address turned into text or a number ({:p}, pointer-to-integer casts), no call into std::time, std::env, std::thread, "
     "std::process::id, rand or a RandomState constructor other than the collections' own default from the parser / "
     "compiler / common / tokenizer crates; (GLOBAL-STATE) those crates define no `static mut`/thread-local state that "
     "could carry information between compilations."
@@ -29,7 +29,11 @@ INSENSITIVE_TERMINALS = {"min", "max", "sum", "count", "all", "any", "len", "is_
 ORDERED_TARGETS = ("HashMap<", "HashSet<", "BTreeMap<", "BTreeSet<")
 ANALYSED_CRATES = ["sylt_compiler", "sylt_parser", "sylt_common", "sylt_tokenizer", "sylt"]
 AMBIENT_PREFIXES = ("std::time::", "std::env::", "std::thread::", "std::process::id", "rand::", "std::hash::random::",
-                    "std::collections::hash_map::RandomState", "std::fs::read_dir")
+                    "std::collections::hash_map::RandomState", "std::fs::read_dir", "std::fs::metadata", "std::fs::symlink_metadata",
+                    "std::io::stdin", "std::io::stdio::stdin", "std::net::", "std::os::", "std::process::Command",
+                    "std::sys::", "std::backtrace::", "std::panic::Location", "core::panic::location::Location::caller",
+                    "std::alloc::", "core::sync::atomic::", "std::sync::atomic::")
+INT_TYPES = ("usize", "u64", "u32", "u128", "isize", "i64", "i32", "i128", "u16", "i16", "u8", "i8")
 
 
 def is_hash_ty(t):
@@ -92,6 +96,23 @@ def run(F, rep, tier):
                     if "HashMap<" in t or "HashSet<" in t:  # any path ending in HashMap/HashSet
                         rep.ob("HASH-fmt", "%s|%s" % (fname, _short(t)), False,
                                "a hash collection is formatted into text (iteration order is seed-dependent)", line_of(call))
+        # ---- addresses: where a value lives differs from run to run (ASLR, allocator state)
+        if fn["_crate"] != "sylt":
+            for call, parts in find_formats(body):
+                for p in parts:
+                    if isinstance(p, dict) and str(p.get("spec", "")).lower().startswith("pointer"):
+                        rep.ob("AMBIENT", "%s|{:p}" % fname, False, "an address is formatted into text with {:p}: it differs between processes", line_of(call))
+            for c in nodes(body, "Cast"):
+                inner = (peel(c["e"]).get("ty") or "").strip()
+                outer = (c.get("ty") or "").strip()
+                if inner.startswith(("*const", "*mut", "&")) and outer in INT_TYPES:
+                    rep.ob("AMBIENT", "%s|address-as-integer" % fname, False,
+                           "`%s as %s` turns an address into a number: ids, orderings or hashes derived from it differ between processes" % (inner[:40], outer),
+                           line_of(c))
+            for c in nodes(body, "MethodCall"):
+                rt = (c.get("recv_ty") or "").strip()
+                if c["m"] in ("addr", "expose_provenance", "expose_addr") and rt.startswith(("*const", "*mut")):
+                    rep.ob("AMBIENT", "%s|pointer.%s()" % (fname, c["m"]), False, "the address of a value is read as a number", line_of(c))
         # ---- ambient sources
         if fn["_crate"] != "sylt":
             for c in nodes(body):
